@@ -17,6 +17,7 @@ import (
 	"google.golang.org/protobuf/types/dynamicpb"
 
 	_ "connectrpc.com/vanguard/internal/gen/vanguard/test/v1"
+	_ "google.golang.org/genproto/googleapis/rpc/errdetails" // registers google.rpc.RetryInfo & co. (typed error details)
 )
 
 // Schema is what the scripted peers know about a service.
